@@ -37,3 +37,48 @@ Theorem C18_slice_reader : forall fuel Sc cfg fp t bs plan ma, N.of_nat (length 
   outcome_sim (so_decode fuel Sc cfg fp t (slice_reader bs))
               (so_decode fuel Sc cfg fp t (chunked_reader bs plan ma)).
 Proof. exact so_chunk_independent. Qed.
+
+(** ** The sink: any io::Write schedule (model/SinkWrite.v, proofs/SinkWriteProofs.v): marker, fingerprint and datum written with
+    write_all through a sink that takes a few bytes per call / interrupts give exactly the message of the Vec result; a bare write
+    for the header (result discarded) under a sink accepting fewer than 10 bytes reports Ok with a message that lacks bytes *)
+Require Import VectoredWrite SinkWrite SinkWriteProofs WriterScheduleProofs.
+Local Close Scope N_scope.
+Theorem C18_sink_schedule_independent :
+  forall (Sc : fschema) (fp : bytes) (slow : bool) (v : sval) (bs d : bytes) (ps : list (list N)) (s : list wans)
+  (sink : bytes) (n : nat),
+  so_encode Sc fp slow v = Ok bs ->
+  to_datum Sc slow v = Ok d ->
+  concat ps = d ->
+  benign_schedule s ->
+  (forall p : bytes, In p (SO_MARKER :: fp :: ps) -> length p + interruptions s <= n) ->
+  exists s' : list wans, write_pieces_sched n s sink (SO_MARKER :: fp :: ps) = (WOk, sink ++ bs, s') /\ benign_schedule s'.
+Proof. exact so_encode_schedule_independent. Qed.
+
+Theorem C18_sink_any_schedule :
+  forall (Sc : fschema) (fp : bytes) (slow : bool) (v : sval) (bs d : bytes) (ps : list (list N)) (s : list wans)
+  (sink : bytes) (n : nat) (r : wres) (sink' : bytes) (s' : list wans),
+  so_encode Sc fp slow v = Ok bs ->
+  to_datum Sc slow v = Ok d ->
+  concat ps = d ->
+  write_pieces_sched n s sink (SO_MARKER :: fp :: ps) = (r, sink', s') ->
+  exists w rest : list N, sink' = sink ++ w /\ bs = w ++ rest /\ (r = WOk <-> rest = []).
+Proof. exact so_encode_any_schedule. Qed.
+
+Theorem C18_header_write_once_refuted :
+  forall (Sc : fschema) (fp : bytes) (slow : bool) (v : sval) (bs d : bytes) (ps : list (list N)) (s : list wans) (n : nat) (k : N),
+  so_encode Sc fp slow v = Ok bs ->
+  to_datum Sc slow v = Ok d ->
+  concat ps = d ->
+  length fp = 8 ->
+  benign_schedule s ->
+  (forall q : list N, In q ps -> length q + interruptions s <= n) ->
+  fst (next_ans s) = Accept k ->
+  N.to_nat k < 10 ->
+  exists (sink' : bytes) (s' : list wans),
+  write_mixed_sched n s [] ((false, SO_MARKER ++ fp) :: map (pair true) ps) = (WOk, sink', s') /\
+  length sink' < length bs /\ sink' <> bs.
+Proof. exact so_header_defect_refuted. Qed.
+
+
+Check so_header_witness.
+Check so_encode_sink_vec.
